@@ -27,11 +27,11 @@ Theorem C02_value_bool : forall ft c m a b, Builtins m -> plain_attr a ->
 Proof. exact xml_value_bool. Qed.
 
 Theorem C02_value_float : forall ft c m a r iv g, Builtins m -> plain_attr a ->
-  starts_with "prov:" r = false -> lookup r (cft c) = Some (Some (r, iv, g)) ->
+  lookup r (cft c) = Some (Some (r, iv, g)) ->
   xml_reinsert ft c m a (VFloat r iv g) = Done m (Some (VFloat r iv g)).
 Proof. exact xml_value_float. Qed.
 
-Theorem C02_value_uri : forall ft c m a u, Builtins m -> plain_attr a -> starts_with "prov:" u = false ->
+Theorem C02_value_uri : forall ft c m a u, Builtins m -> plain_attr a ->
   xml_reinsert ft c m a (VId u) = Done m (Some (VId u)).
 Proof. exact xml_value_uri. Qed.
 
